@@ -57,6 +57,8 @@ PROPS["C04"] = dict(
             ["--prop", "C04", "--config", "1", "--seq", "1", "--starts", "fresh,song,busy5,nearfull chips=2", "--depth", "4"]),
         Leg("asan", RT_SRC, "asan", ["--prop", "C04", "--config", "1", "--seq", "1", "--starts", "fresh,song,busy5", "--depth", "2"],
             ["--prop", "C04", "--config", "1", "--seq", "1", "--starts", "fresh,song,busy5", "--depth", "3"]),
+        # a full chip (six key-down notes of one timbre) with and without auto-arpeggio: evictions and evacuations happen on the first note-on
+        Leg("fullchip", RT_SRC, "fast", ["--prop", "C04", "--starts", "busy6same arp=1,busy6same", "--depth", "4"], ["--prop", "C04", "--starts", "busy6same arp=1,busy6same,busy6same arp=1 chips=2", "--depth", "5"]),
     ],
     rule="BFS over all call sequences; a state is distinct when any serialised field of the MIDI channels (controllers, active-note lists in order), chip channels (user lists in order, ages), "
          "setup, instrument caches, bank contents or the key-on bitmap differs (128-bit hash of the canonical serialisation)",
@@ -84,6 +86,9 @@ PROPS["C06"] = dict(
     legs=[
         Leg("alloc", RT_SRC, "fast", ["--prop", "C06", "--depth", "3", "--starts", "fresh,alloc=0,alloc=1,alloc=2,arp=1,arp=1 alloc=1,nearfull chips=2,nearfull chips=3 arp=1"],
             ["--prop", "C06", "--depth", "4", "--starts", "fresh,alloc=0,alloc=1,alloc=2,arp=1,arp=1 alloc=1,nearfull chips=2,nearfull chips=3 arp=1,nearfull chips=8"]),
+        # same exploration with every release time of the bank x30 (3 s .. 9 s tails): idle channels are still releasing when the next note-on is scored
+        Leg("longrelease", RT_SRC, "fast", ["--prop", "C06", "--koff-scale", "30", "--depth", "3", "--starts", "fresh,alloc=0,alloc=1,alloc=2,nearfull chips=2,nearfull chips=1 arp=1"],
+            ["--prop", "C06", "--koff-scale", "30", "--depth", "4", "--starts", "fresh,alloc=0,alloc=1,alloc=2,arp=1,nearfull chips=2,nearfull chips=1 arp=1,nearfull chips=3"]),
     ],
     rule="BFS over note/pedal/controller/time histories (30 ms, 5 s, 120 s steps, total <= 600 s) x start configurations; distinct by full implementation snapshot + simulated time",
     assumptions=RT_ASSUME,
